@@ -380,3 +380,63 @@ Example C14_ex_lex_numbers : forall un ua,
   lex un ua (spell_bytes_text [0; 92; 255]) = Ok [mkTok (spell_bytes_text [0; 92; 255]) TT_ByteList 0 0] /\
   lex un ua (spell_bytes 3 [0; 39; 255]) = Ok [mkTok (spell_bytes 3 [0; 39; 255]) TT_ByteList 0 0].
 Proof. intros un ua. vm_compute. repeat split; reflexivity. Qed.
+
+(* ---- the closing rule in general, and literals followed by more input ---- *)
+From GV Require Import Proofs.C14.LexSpellingThen.
+
+(* A literal body may contain the quote character itself, in runs shorter than
+   the opening run, provided it neither starts nor ends with it ([runs_ok q n 0]
+   says exactly that, executably).  With n = 1 or n >= 3 quotes on each side
+   this is one token -- the quote that completes a run of n ends the literal,
+   any other character resets the count; backslashes play no role. *)
+Theorem C14_lex_literal_general : forall un ua k n x body, (1 <= n)%nat -> n <> 2%nat ->
+  x <> kq k -> runs_ok (kq k) n 0 body = true ->
+  lex un ua (literal_text k n (x :: body)) = Ok [mkTok (literal_text k n (x :: body)) (kty k) 0 0].
+Proof. exact lex_literal_general. Qed.
+Print Assumptions C14_lex_literal_general.
+
+(* Every char-list literal of that shape (any well-formed items: raw characters
+   including quotes, escapes, \u{..}) lexes to one CharList token whose text,
+   given to parse_char_list, yields exactly what the items denote. *)
+Theorem C14_char_list_end_to_end : forall un ua pf q items x body,
+  (q = 1 \/ 3 <= q) -> forallb (wf_citem q) items = true ->
+  render_citems items = x :: body -> x <> 34 -> runs_ok 34 (N.to_nat q) 0 body = true ->
+  exists t, lex un ua (char_list_literal q items) = Ok [t] /\ tok_type t = TT_CharList /\
+            tok_text t = char_list_literal q items /\
+            parse_char_list pf (tok_text t) = Ok (denote_citems items).
+Proof. exact char_list_end_to_end. Qed.
+Print Assumptions C14_char_list_end_to_end.
+
+(* A number spelling followed by a character [x] that cannot continue it (not a
+   number character, not a period -- a space, an operator, a bracket ...): the
+   first token is the number, whole and alone.  The same with a fraction. *)
+Theorem C14_lex_number_then : forall un ua d ds x rest ts, ascii_digit d = true -> forallb num_char ds = true ->
+  is_number_char un ua x = false -> x <> 46 -> lex un ua (d :: ds ++ x :: rest) = Ok ts ->
+  exists ts', ts = mkTok (d :: ds) TT_Number 0 0 :: ts'.
+Proof. exact lex_number_then. Qed.
+Print Assumptions C14_lex_number_then.
+
+Theorem C14_lex_float_then : forall un ua d ds fs x rest ts, ascii_digit d = true -> forallb num_char ds = true ->
+  forallb num_char fs = true -> is_number_char un ua x = false -> x <> 46 ->
+  lex un ua (d :: ds ++ 46 :: fs ++ x :: rest) = Ok ts ->
+  exists ts', ts = mkTok (d :: ds ++ 46 :: fs) TT_Number 0 0 :: ts'.
+Proof. exact lex_float_then. Qed.
+Print Assumptions C14_lex_float_then.
+
+(* the empty literal (two quotes) followed by a non-quote *)
+Theorem C14_lex_empty_literal_then : forall un ua k x rest ts, x <> kq k ->
+  lex un ua (kq k :: kq k :: x :: rest) = Ok ts -> exists ts', ts = mkTok [kq k; kq k] (kty k) 0 0 :: ts'.
+Proof. exact lex_empty_literal_then. Qed.
+Print Assumptions C14_lex_empty_literal_then.
+
+Example C14_ex_lex_general : forall un ua,
+  (* three quotes, body  a, quote, quote, b  -- raw quotes inside *)
+  runs_ok 34 3 0 [34; 34; 98] = true /\
+  lex un ua (literal_text KChar 3 [97; 34; 34; 98]) = Ok [mkTok (literal_text KChar 3 [97; 34; 34; 98]) TT_CharList 0 0] /\
+  (* a body ending in a quote is not accepted by runs_ok, and indeed does not lex as one token *)
+  runs_ok 34 3 0 [34] = false /\
+  lex un ua (literal_text KChar 3 [97; 34]) = Err E_Unterminated /\
+  (* 12+3 and 1.5 then space *)
+  lex un ua [49; 50; 43; 51] = Ok [mkTok [49; 50] TT_Number 0 0; mkTok [43] TT_PlusSign 0 2; mkTok [51] TT_Number 0 3] /\
+  lex un ua [49; 46; 53; 32] = Ok [mkTok [49; 46; 53] TT_Number 0 0; mkTok [32] TT_Whitespace 0 3].
+Proof. intros un ua. vm_compute. repeat split; reflexivity. Qed.
